@@ -248,11 +248,38 @@ pub fn check_request(router: &Router<Rule>, req: &Request) -> Vec<(String, Strin
     out
 }
 
+pub fn extended_request(probe: &crate::universe::Probe, rc: &RouterConfig, ext: u8) -> Request {
+    let mut r = probe.to_request(rc);
+    match ext {
+        1 => {
+            // IPv6, sub-second timestamp, non-ASCII header, sampling override
+            r.remote_addr = Some("2001:db8::1".parse().unwrap());
+            r.created_at = Some("2024-03-05T10:00:00.123456789Z".parse().unwrap());
+            r.add_header("X-Ünï".into(), "vålue \"q\" \\ \u{1F600}".into(), false);
+            r.sampling_override = Some(true);
+        }
+        2 => {
+            r.host = None;
+            r.scheme = None;
+            r.method = None;
+            r.remote_addr = None;
+            r.created_at = None;
+            r.path_and_query = None;
+        }
+        // IPv4-mapped IPv6 client addresses (what a dual-stack proxy reports)
+        3 => r.remote_addr = Some("::ffff:10.0.0.1".parse().unwrap()),
+        4 => r.remote_addr = Some("::ffff:8.8.8.8".parse().unwrap()),
+        _ => {}
+    }
+    r
+}
+
 #[derive(Clone, Debug, serde::Serialize, serde::Deserialize)]
 pub enum Case {
     Shapes(super::c05::Case),
     RuleJson(Value, u16),
-    Request(u32, Value),
+    /// (configuration bits, probe, extension: 0 none, 1 rich, 2 all-None, 3 / 4 IPv4-mapped addresses)
+    Request(u32, crate::universe::Probe, u8),
 }
 
 pub fn check(case: &Case) -> Vec<(String, String)> {
@@ -272,12 +299,9 @@ pub fn check(case: &Case) -> Vec<(String, String)> {
             let action = Action::from_routes_rule(routes_of(&[r], &rc), &req, None);
             check_action(&action)
         }
-        Case::Request(bits, reqjson) => {
-            let (router, _) = request_router(&Cfg::from_bits(*bits));
-            let req: Request = match serde_json::from_value(reqjson.clone()) {
-                Ok(r) => r,
-                Err(_) => return vec![],
-            };
+        Case::Request(bits, probe, ext) => {
+            let (router, rc) = request_router(&Cfg::from_bits(*bits));
+            let req = extended_request(probe, &rc, *ext);
             check_request(&router, &req)
         }
     }
@@ -349,36 +373,13 @@ pub fn run(tier: Tier) -> i32 {
         let probes = w.probes(0, &around);
         par_range(ctx.threads, probes.len(), |pi| {
             let probe = w.space.probe(&probes[pi]);
-            let mut reqs = vec![probe.to_request(&rc)];
-            if pi % 5 == 0 {
-                // extensions: IPv6, sub-second timestamp, non-ASCII header, sampling override, everything None
-                let mut r = reqs[0].clone();
-                r.remote_addr = Some("2001:db8::1".parse().unwrap());
-                r.created_at = Some("2024-03-05T10:00:00.123456789Z".parse().unwrap());
-                r.add_header("X-Ünï".into(), "vålue \"q\" \\ \u{1F600}".into(), false);
-                r.sampling_override = Some(true);
-                reqs.push(r);
-                let mut n = reqs[0].clone();
-                n.host = None;
-                n.scheme = None;
-                n.method = None;
-                n.remote_addr = None;
-                n.created_at = None;
-                n.path_and_query = None;
-                reqs.push(n);
-                // IPv4-mapped IPv6 client address (what a dual-stack proxy reports)
-                let mut m = reqs[0].clone();
-                m.remote_addr = Some("::ffff:10.0.0.1".parse().unwrap());
-                reqs.push(m);
-                let mut m2 = reqs[0].clone();
-                m2.remote_addr = Some("::ffff:8.8.8.8".parse().unwrap());
-                reqs.push(m2);
-            }
-            for req in reqs {
+            let exts: Vec<u8> = if pi % 5 == 0 { vec![0, 1, 2, 3, 4] } else { vec![0] };
+            for ext in exts {
+                let req = extended_request(&probe, &rc, ext);
                 ctx.eval(1);
                 req_distinct.insert_str(&serde_json::to_string(&req).unwrap_or_default());
                 for (sig, what) in check_request(&router, &req) {
-                    ctx.report(Violation { signature: sig, what, case: serde_json::to_value(&Case::Request(bits, serde_json::to_value(&req).unwrap())).unwrap(), weight: 1 });
+                    ctx.report(Violation { signature: sig, what, case: serde_json::to_value(&Case::Request(bits, probe.clone(), ext)).unwrap(), weight: 1 });
                 }
             }
         });
